@@ -22,8 +22,9 @@ type Blockchain struct {
 	mut         sync.Mutex
 	pruneHeight hotstuff.View
 	blocks      map[hotstuff.Hash]*hotstuff.Block
-	// blockAtHeight map[hotstuff.View][]*hotstuff.Block
-	blockAtHeight map[hotstuff.View]*hotstuff.Block
+	// blockAtHeight holds every stored block of a view that has not been pruned yet;
+	// there can be several per view when a leader equivocates.
+	blockAtHeight map[hotstuff.View][]*hotstuff.Block
 	pendingFetch  map[hotstuff.Hash]context.CancelFunc // allows a pending fetch operation to be canceled
 }
 
@@ -40,7 +41,7 @@ func New(
 		logger:    logger,
 
 		blocks:        make(map[hotstuff.Hash]*hotstuff.Block),
-		blockAtHeight: make(map[hotstuff.View]*hotstuff.Block),
+		blockAtHeight: make(map[hotstuff.View][]*hotstuff.Block),
 		pendingFetch:  make(map[hotstuff.Hash]context.CancelFunc),
 	}
 	bc.Store(hotstuff.GetGenesis())
@@ -59,7 +60,7 @@ func (chain *Blockchain) Store(block *hotstuff.Block) {
 	}
 
 	chain.blocks[block.Hash()] = block
-	chain.blockAtHeight[block.View()] = block
+	chain.indexAtHeight(block)
 
 	// cancel any pending fetch operations
 	if cancel, ok := chain.pendingFetch[block.Hash()]; ok {
@@ -79,17 +80,30 @@ func (chain *Blockchain) LocalGet(hash hotstuff.Hash) (*hotstuff.Block, bool) {
 	return block, true
 }
 
+// indexAtHeight records the block under its view, unless that view has been pruned already.
+// The caller must hold chain.mut.
+func (chain *Blockchain) indexAtHeight(block *hotstuff.Block) {
+	if block.View() <= chain.pruneHeight && block.View() != 0 {
+		return
+	}
+	chain.blockAtHeight[block.View()] = append(chain.blockAtHeight[block.View()], block)
+}
+
 // DeleteAtHeight deletes the block with the provided block hash at the given height.
 func (chain *Blockchain) DeleteAtHeight(height hotstuff.View, blockHash hotstuff.Hash) error {
-	block, ok := chain.blockAtHeight[height]
+	blocks, ok := chain.blockAtHeight[height]
 	if !ok {
 		return fmt.Errorf("no blocks at height %d", height)
 	}
-
-	strHash := blockHash.String()
-	if block.Hash().String() == strHash {
-		delete(chain.blockAtHeight, height)
-		return nil
+	for i, block := range blocks {
+		if block.Hash() == blockHash {
+			if len(blocks) == 1 {
+				delete(chain.blockAtHeight, height)
+			} else {
+				chain.blockAtHeight[height] = append(blocks[:i:i], blocks[i+1:]...)
+			}
+			return nil
+		}
 	}
 	return fmt.Errorf("block not found at height %d", height)
 }
@@ -127,7 +141,7 @@ func (chain *Blockchain) Get(hash hotstuff.Hash) (block *hotstuff.Block, ok bool
 	chain.logger.Debugf("Successfully fetched block: %s", hash.SmallString())
 
 	chain.blocks[hash] = block
-	chain.blockAtHeight[block.View()] = block
+	chain.indexAtHeight(block)
 
 done:
 	chain.mut.Unlock()
@@ -149,30 +163,22 @@ func (chain *Blockchain) Extends(block, target *hotstuff.Block) bool {
 	return ok && current.Hash() == target.Hash()
 }
 
-// PruneToHeight prunes the blockchain to the given height.
-func (chain *Blockchain) PruneToHeight(committedHeight, height hotstuff.View) (forkedBlocks []*hotstuff.Block) {
+// PruneToHeight prunes the blockchain to the given height, which is the height of the newly
+// committed block. It returns the stored blocks at or below that height that are not on the
+// committed block's chain (forked blocks). Each forked block is returned only once.
+func (chain *Blockchain) PruneToHeight(committed *hotstuff.Block, height hotstuff.View) (forkedBlocks []*hotstuff.Block) {
 	chain.mut.Lock()
 	defer chain.mut.Unlock()
 
-	committedViews := make(map[hotstuff.View]bool)
-	committedViews[committedHeight] = true
-	for h := committedHeight; h >= chain.pruneHeight; {
-		block, ok := chain.blockAtHeight[h]
-		if !ok {
-			break
-		}
-		parent, ok := chain.blocks[block.Parent()]
-		if !ok || parent.View() < chain.pruneHeight {
-			break
-		}
-		h = parent.View()
-		committedViews[h] = true
+	// the committed chain above the previous prune height
+	onCommittedChain := make(map[hotstuff.Hash]bool)
+	for block, ok := committed, committed != nil; ok && block.View() >= chain.pruneHeight; block, ok = chain.blocks[block.Parent()] {
+		onCommittedChain[block.Hash()] = true
 	}
 
 	for h := height; h > chain.pruneHeight; h-- {
-		if !committedViews[h] {
-			block, ok := chain.blockAtHeight[h]
-			if ok {
+		for _, block := range chain.blockAtHeight[h] {
+			if !onCommittedChain[block.Hash()] {
 				chain.logger.Debugf("PruneToHeight: found forked block: %v", block)
 				forkedBlocks = append(forkedBlocks, block)
 			}
